@@ -10,6 +10,40 @@ set_option linter.unusedSimpArgs false
 set_option linter.unusedVariables false
 
 namespace Oratio
+
+namespace Lra
+
+/-- the assertion watches are not touched by `propagateLit` -/
+theorem propagateLit_aWatches (s : Sat) (t : Lra) (p : Lit) : (propagateLit s t p).th.aWatches = t.aWatches := by
+  have hl : ∀ xi val q, (assertLower s t xi val q).th.aWatches = t.aWatches := fun xi val q => by
+    rcases assertLower_th s t xi val q with e | e <;> rw [e]
+    exact (boundSet_al t xi val q).aWatches
+  have hu : ∀ xi val q, (assertUpper s t xi val q).th.aWatches = t.aWatches := fun xi val q => by
+    rcases assertUpper_th s t xi val q with e | e <;> rw [e]
+    exact (boundSet_au t xi val q).aWatches
+  unfold propagateLit
+  cases hab : t.asrtOf p.var with
+  | none => rfl
+  | some a =>
+    simp only
+    rcases hsv : s.value a.b with _ | _ | _
+    · rfl
+    · simp only
+      split
+      · exact hl _ _ _
+      · exact hu _ _ _
+    · simp only
+      split
+      · exact hu _ _ _
+      · exact hl _ _ _
+
+theorem check_aWatches {t t' : Lra} (ht : TabWF t) {fuel : Nat} {c : Option (List Lit)}
+    (h : t.check fuel = some (c, t')) : t'.aWatches = t.aWatches :=
+  check_induct (fun u => u.aWatches = t.aWatches)
+    (fun u xi xj l v _ hP _ _ _ => by rw [pivotAndUpdate_aWatches]; exact hP) fuel t t' c ht rfl h
+
+end Lra
+
 namespace Net
 open Sat
 
@@ -76,12 +110,15 @@ structure ThReg (N : Nat) (l : Lra) (i : Dl Int) (r : Dl IR) : Prop where
   idl : ∀ c ∈ i.varDists, c.b < N
   rdl : ∀ c ∈ r.varDists, c.b < N
   good : Lra.GoodState l
+  /-- the assertion watch lists only hold existing SAT variables -/
+  aw : ∀ x, ∀ b ∈ l.aWatches.getD x [], b < N
 
 def NetReg (n : Net) : Prop := ThReg n.sat.vals.length n.lra n.idl n.rdl
 
 theorem ThReg.pop {N : Nat} {l : Lra} {i : Dl Int} {r : Dl IR} (h : ThReg N l i r) : ThReg N l.pop i.pop r.pop :=
   ⟨by rw [(Lra.pop_same l).2.2.2.1]; exact h.lra, by rw [dl_pop_varDists]; exact h.idl,
-    by rw [dl_pop_varDists]; exact h.rdl, Lra.pop_good h.good⟩
+    by rw [dl_pop_varDists]; exact h.rdl, Lra.pop_good h.good,
+    by rw [(Lra.pop_same l).2.2.2.2]; exact h.aw⟩
 
 theorem ThReg.popTo_go {N : Nat} (lvl : Nat) : ∀ (k : Nat) (n : Net), ThReg N n.lra n.idl n.rdl →
     ThReg N (popTo.go lvl k n).lra (popTo.go lvl k n).idl (popTo.go lvl k n).rdl
@@ -119,7 +156,10 @@ theorem theoryPropagate_recs {n : Net} {orig : Cnf} {fr : List Frame} (h : ThInv
     have hg : Lra.AsrtReg n.sat n.lra := ⟨hb.lra.inv.tab, hreg.good.nz, hb.lra.key, hreg.lra⟩
     obtain ⟨r1, r2⟩ := Lra.propagateLit_RC hb.lra.reasons hg hb.lra.inv.blen hb.lra.vars hp
     have hr := Lra.propagateLit_registry n.sat n.lra p
-    refine ⟨r1, r2, ⟨?_, ?_, ?_, ?_⟩⟩
+    refine ⟨r1, r2, ⟨?_, ?_, ?_, ?_, ?_⟩⟩
+    rotate_right
+    · show ∀ x, ∀ b ∈ (Lra.propagateLit n.sat n.lra p).th.aWatches.getD x [], b < (Lra.propagateLit n.sat n.lra p).sat.vals.length
+      rw [Lra.propagateLit_aWatches, r1.len]; exact hreg.aw
     · show ∀ e ∈ (Lra.propagateLit n.sat n.lra p).th.vAsrts, e.1 < (Lra.propagateLit n.sat n.lra p).sat.vals.length
       rw [hr.1, r1.len]; exact hreg.lra
     · show ∀ c ∈ n.idl.varDists, c.b < (Lra.propagateLit n.sat n.lra p).sat.vals.length
@@ -150,7 +190,9 @@ theorem theoryPropagate_recs {n : Net} {orig : Cnf} {fr : List Frame} (h : ThInv
         have hres' : Dl.propagateLit idlOps n.sat n.idl ⟨c.b, p.sign⟩ = .inr (s', t') := by rw [hpe]; exact hres
         have hrecs := Dl.propagate_recs K E n.sat s' n.idl t' hE.toM hb.idl.path c hc' p.sign hv hr hres' hok hreg.idl
         have hvd := Dl.propagateLit_varDists n.sat s' n.idl t' _ hres'
-        refine ⟨hrecs, (fun c hc => by cases hc), ⟨?_, ?_, ?_, hreg.good⟩⟩
+        refine ⟨hrecs, (fun c hc => by cases hc), ⟨?_, ?_, ?_, hreg.good, (by
+          show ∀ x, ∀ b ∈ n.lra.aWatches.getD x [], b < s'.vals.length
+          rw [hrecs.len]; exact hreg.aw)⟩⟩
         · show ∀ e ∈ n.lra.vAsrts, e.1 < s'.vals.length
           rw [hrecs.len]; exact hreg.lra
         · show ∀ c ∈ t'.varDists, c.b < s'.vals.length
@@ -182,7 +224,9 @@ theorem theoryPropagate_recs {n : Net} {orig : Cnf} {fr : List Frame} (h : ThInv
         have hrecs := DlR.propagate_recsR E n.sat s' n.rdl t' hE.toM hb.rdl.path c hc' p.sign hv hr
           (fun _ => ⟨hb.rdl.epsC c hmem, hb.rdl.eps _ _⟩) hres' hok hreg.rdl
         have hvd := DlR.propagateLit_varDistsR n.sat s' n.rdl t' _ hres'
-        refine ⟨hrecs, (fun c hc => by cases hc), ⟨?_, ?_, ?_, hreg.good⟩⟩
+        refine ⟨hrecs, (fun c hc => by cases hc), ⟨?_, ?_, ?_, hreg.good, (by
+          show ∀ x, ∀ b ∈ n.lra.aWatches.getD x [], b < s'.vals.length
+          rw [hrecs.len]; exact hreg.aw)⟩⟩
         · show ∀ e ∈ n.lra.vAsrts, e.1 < s'.vals.length
           rw [hrecs.len]; exact hreg.lra
         · show ∀ c ∈ n.idl.varDists, c.b < s'.vals.length
